@@ -46,6 +46,10 @@ checks = {
    text="every transaction of up to 3/4 staking messages over boundary amounts and baseline/current ratios is offered to the real ante decorator; tracker refresh rule monitored on all deviation-bounded histories",
    note="current bonded total supplied by a stub staking keeper in the enumeration part (the decorator only reads it); one direction as stated",
    technique="bounded-exhaustive enumeration of transactions + deviation-bounded exploration with a tracker monitor"),
+ "C20": dict(engine="sched", level="model_checking",
+   text="all schedules with <=2 (quick) / <=3 (thorough) preemptions of 2-4 threads x 1-2 operations on the real price cache under a cooperative scheduler, each history checked for linearizability by brute force and for forward-only timestamps; lib.Median enumerated over boundary lists; a separate free-running -race pass of the same bodies",
+   note="scheduling points are the cache's mutex operations; memory-model effects beyond the race detector and the gRPC plumbing are outside",
+   technique="stateless model checking (DFS over schedules with iterative preemption bounding) + brute-force linearizability + bounded-exhaustive input enumeration + race-detector pass"),
 }
 design = {"C02": "§3 C02", "C03": "§3 C03", "C04": "§3 C04", "C05": "§3 C05", "C08": "§3 C08", "C19": "§3 C19"}
 
@@ -64,6 +68,8 @@ m = {
    "kind_free_text": "hand-written explicit-state / deviation-bounded explorer over the real application (copy-on-write branches of the real multistore), monitors, lock-step reference models, branch probes"},
   {"name": "seams", "path": "harness/cmd/seamgen + harness/zzseam", "serves_properties": sorted(k for k, v in checks.items() if v["engine"] == "seams") + ["C06"],
    "kind_free_text": "AST rewriter routing every map range / time.Now of the repository's packages through an explorer-controlled seam; differential replay over all orders"},
+  {"name": "sched", "path": "harness/vsync + harness/cmd/c20", "serves_properties": ["C20"],
+   "kind_free_text": "hand-written cooperative scheduler (sync shim injected by overlay), DFS over schedules with preemption bounding, brute-force linearizability checker"},
   {"name": "enum", "path": "harness/mc (c06.go, c15.go, evmref.go)", "serves_properties": sorted(k for k, v in checks.items() if v["engine"] == "enum"),
    "kind_free_text": "bounded-exhaustive input enumeration of pure functions against definition-level / contract-derived references"},
  ],
